@@ -127,7 +127,7 @@ class LasAppender:
             and self.evlrs is not None
             and len(self.evlrs) > 0
         ):
-            self.header.number_of_evlr = len(self.evlrs)
+            self.header.number_of_evlrs = len(self.evlrs)
             self.header.start_of_first_evlr = self.dest.tell()
             self.evlrs.write_to(self.dest, as_extended=True)
             # the EVLRs may have been relocated before their old position (unused
